@@ -74,6 +74,17 @@ func EnvInt(name string, def int) int {
 	return def
 }
 
+// Deadline is the internal wall-clock budget of a layer: when it fires the
+// layer stops, records a cap and reports exhaustive=false (exit code stays 0).
+func Deadline(quickS, thoroughS int) time.Time {
+	d := quickS
+	if Thorough() {
+		d = thoroughS
+	}
+	d = EnvInt("VERIF_DEADLINE_S", d)
+	return time.Now().Add(time.Duration(d) * time.Second)
+}
+
 // Shard returns (index, count) for process-level sharding.
 func Shard() (int, int) {
 	n := EnvInt("VERIF_SHARDS", 1)
